@@ -9,6 +9,7 @@ expresses the result's logical view through the operands' logical views only.
 -/
 import Matreex.Model.Eq
 import Matreex.Lemmas.Eq
+import Matreex.Lemmas.BridgeT7
 import Matreex.Props.C04
 import Matreex.Props.C05
 import Matreex.Props.C10
@@ -287,5 +288,19 @@ example : r23.Coh ∧ c23.Coh := ⟨⟨rfl⟩, ⟨rfl⟩⟩
 example : r23.beq (· == ·) c23 = .ok true ∧ c23.beq (· == ·) r23 = .ok true := ⟨by rfl, by rfl⟩
 example : r23.beq (· == ·) c23' = .ok false := by rfl
 example : logicalEq (· == ·) r23 c23 = true := by rfl
+
+
+/-- the `==` the theorems of this file are about IS the source's `PartialEq::eq`: the definition
+regenerated from `src/eq.rs` on every run (`Gen/T7Gen.lean`, translator T7 — the branch structure,
+every condition with its operands, the crosswise extent test, the arguments of `from_flattened` /
+`.swap()` / `to_flattened` / `get_unchecked`, the operands of the element comparison) equals the
+model's `Matrix.beq`, faults included, for coherent operands; without any hypothesis it returns
+whatever the model returns whenever the model does not fault (`Iterator::all` stops at the first
+`false`, the model evaluates every position) -/
+theorem eq_is_the_source (eqα : α → α → Bool) (a b : Matrix α) :
+    (∀ v, a.beq eqα b = .ok v → Gen.Matrix.eq eqα a.hdr a.data b.hdr b.data = .ok v) ∧
+    (a.Coh → b.Coh → b.data.size ≤ usizeMax →
+      Gen.Matrix.eq eqα a.hdr a.data b.hdr b.data = a.beq eqα b) :=
+  ⟨fun v h => BridgeT7.eq_refines eqα a b v h, fun ha hb hfb => BridgeT7.eq_bridge eqα a b ha hb hfb⟩
 
 end Matreex.C07
